@@ -172,7 +172,7 @@ def cfg_lines(c):
 NODE_ADDRS = [[1], [2], [3], [1, 1], [1, 2], [2, 1], [1, 1, 1], [1, 2, 3]]
 
 class Hist:
-    def __init__(self, r, c, occupancy_only=False, diag_clean=True):
+    def __init__(self, r, c, occupancy_only=False, diag_clean=False):
         self.r = r; self.c = c; self.occ_only = occupancy_only; self.diag_clean = diag_clean
         self.where = {}          # board index -> address list (our belief; only steers the generator)
 
@@ -242,6 +242,7 @@ class Hist:
             if self.diag_clean:
                 while v in (0, 1, 2): v = r.range(3, 255)
             out += [k, v]
+        if r.chance(1, 6): out.append(r.choice([0, 1, 2, r.below(256)]))          # incomplete trailing pair
         return out
 
     def other_event(self):
@@ -264,7 +265,9 @@ class Hist:
         if k < 60:
             l, h = self.dcc_known()
             d = [l, h, r.choice([0, 2, 3, 1, 7]), r.choice([0, 1, 2, 3, 0x3F, 0x1F, 0x40, r.below(256)]), byte(), byte(), byte(), byte(), byte()]
-            return ("msg", a, T["CS_DRIVE_MANUAL"], d) if r.chance(1, 2) else ("udrive", [1, 0, 0], d)
+            if r.chance(1, 2): return ("msg", a, T["CS_DRIVE_MANUAL"], d)
+            if not r.chance(1, 5): d[2] = r.choice([0, 2, 3]); d[3] &= 0x3F; d[5] &= 0x1F       # mostly inside the ranges the send function accepts
+            return ("udrive", [1, 0, 0], d)
         if k < 68:
             accs = [(l, h) for bb in c.boards for (l, h, _) in bb["dpoints"] + bb["dsignals"]]
             l, h = r.choice(accs) if accs and not r.chance(1, 5) else (r.below(256), r.below(256))
@@ -349,6 +352,11 @@ def dumps_of(lines):
     if cur: out.append(sorted(cur))
     return out
 
+DUMP_TAGS = ("b", "seg", "tr", "pos", "ontrack", "bo", "to", "pt", "sg", "pe", "rv")
+def real_dumps(lines):
+    """only the dumps (initial state, one per event, optionally the final snapshot), without start/stop/mark lines"""
+    return [d for d in dumps_of(lines) if d and d[0].split()[0] in DUMP_TAGS]
+
 def parse_dump(d):
     """-> dict with segs {id: {occ, addrs[(l,h,t)], pw, conf}}, trains {id: {...}}, pos {id: (n, [segs], ori, ontrack)}"""
     segs = {}; trains = {}; pos = {}; other = []
@@ -374,3 +382,126 @@ def mask_meaningless(d):
             l = l.replace(" ori=L ", " ori=- ").replace(" ori=R ", " ori=- ")
         out.append(l)
     return out
+
+# ---------------------------------------------------------------- running
+import subprocess, shutil
+
+def run_model(md, mode, script_text, timeout=1800):
+    r = subprocess.run([md, mode], input=script_text, capture_output=True, text=True, timeout=timeout)
+    if r.returncode != 0:
+        raise RuntimeError("model driver (%s) failed: %s" % (mode, r.stderr[-500:]))
+    return vlib.split_cases(r.stdout)
+
+def run_impl(exe, scripts, ids, shard=400, timeout=600):
+    """scripts: {id: [lines]}; returns ({id: lines}, {id: (rc, stderr tail)} for cases that crashed the driver)"""
+    out = {}; crashed = {}
+    todo = list(ids)
+    while todo:
+        part = todo[:shard]; todo = todo[shard:]
+        text = "\n".join(l for i in part for l in scripts[i]) + "\n"
+        rc, so, se = vlib.run_driver(exe, text, timeout=timeout)
+        got = vlib.split_cases(so)
+        if rc == 0:
+            for i in part: out[i] = got.get(str(i))
+            continue
+        # the driver died inside one case: everything before it is complete
+        done = [i for i in part if str(i) in got]
+        if not done:
+            crashed[part[0]] = (rc, se[-1200:]); todo = part[1:] + todo; continue
+        last = done[-1]
+        for i in done[:-1]: out[i] = got[str(i)]
+        crashed[last] = (rc, se[-1200:]); out[last] = got[str(last)]
+        todo = part[part.index(last) + 1:] + todo
+    return out, crashed
+
+def make_cases(r, n, tmpbase, occupancy_only=False, rich=True, min_ev=3, max_ev=14, cfg_reuse=4):
+    """-> list of dict(cfg, dir, events)"""
+    cases = []; c = None; d = None
+    for i in range(n):
+        if c is None or i % cfg_reuse == 0:
+            c = gen_cfg(r, rich=rich, max_segs=8 if occupancy_only else 6)
+            d = os.path.join(tmpbase, "cfg%d" % i); write_cfg(c, d)
+        h = Hist(r, c, occupancy_only=occupancy_only).history(r.range(min_ev, max_ev))
+        cases.append({"cfg": c, "dir": d, "events": h})
+    return cases
+
+def ev_json(e):
+    return [e[0]] + [x if not isinstance(x, tuple) else list(x) for x in e[1:]]
+
+def cfg_json(c):
+    return {"boards": c.boards, "trains": c.trains, "track_order": c.track_order}
+
+def mask_open_choice(c, d):
+    """when a train is currently listed with BOTH orientations the property leaves open which one is reported:
+    hide the orientation of that train for the model/implementation comparison (the oracle still demands one of them)"""
+    p = parse_dump(d); mixed = set()
+    for i, (l, h, _) in enumerate(c.trains):
+        kinds = {("L" if at == 0 else "R") for g in p["segs"] for (al, ah, at) in p["segs"][g]["addrs"] if (al, ah) == (l, h)}
+        if len(kinds) > 1: mixed.add("t%d" % i)
+    out = []
+    for l in d:
+        f = l.split()
+        if f[0] == "tr" and f[1] in mixed: l = l.replace(" ori=L ", " ori=* ").replace(" ori=R ", " ori=* ")
+        if f[0] == "pos" and f[1] in mixed: f[4] = "*"; l = " ".join(f)
+        out.append(l)
+    return out
+
+
+def mask(c, d):
+    """the view of a dump that the properties speak about: without the orientation of trains that are not on track and
+    without the orientation of trains currently reported with both orientations"""
+    return mask_open_choice(c, mask_meaningless(d))
+
+# ---------------------------------------------------------------- replay of a recorded case
+def cfg_from_json(j):
+    c = Cfg()
+    for B in j["boards"]:
+        c.boards.append({"uid": B["uid"], "secack": B["secack"], "segs": [tuple(x) for x in B["segs"]],
+                         "points": [(n, i, [tuple(a) for a in asp]) for n, i, asp in B["points"]],
+                         "signals": [(n, i, [tuple(a) for a in asp]) for n, i, asp in B["signals"]],
+                         "dpoints": [tuple(x) for x in B["dpoints"]], "dsignals": [tuple(x) for x in B["dsignals"]],
+                         "periph": [(p0, p1, i, [tuple(a) for a in asp]) for p0, p1, i, asp in B["periph"]],
+                         "revs": [(cv, i) for cv, i in B["revs"]]})
+    c.trains = [(l, h, bits) for l, h, bits in j["trains"]]; c.track_order = j["track_order"]
+    for B in c.boards:
+        c.n["seg"] += len(B["segs"]); c.n["p"] += len(B["points"]); c.n["s"] += len(B["signals"]); c.n["dp"] += len(B["dpoints"])
+        c.n["ds"] += len(B["dsignals"]); c.n["pe"] += len(B["periph"]); c.n["r"] += len(B["revs"])
+    return c
+
+def ev_from_json(e):
+    return tuple(e)
+
+def replay_case(ck, path, judge):
+    """re-run a recorded case on the current tree: implementation, model and specification side by side.
+    judge(cfg, events, impl_dumps, model_dumps, spec_dumps) -> list of reasons (empty = the case passes now)"""
+    import json
+    j = json.load(open(path))
+    if "cfg" not in j or "events" not in j:
+        print(json.dumps(j, indent=1)[:4000]); return 0
+    c = cfg_from_json(j["cfg"]); events = [ev_from_json(e) for e in j["events"]]
+    tmp = vlib.mktmp("vrep"); d = os.path.join(tmp, "cfg"); write_cfg(c, d)
+    cdir = vlib.coq_dir()
+    for n, e in vlib.regenerate(cdir, ("tables", "statetabs")): print("translator %s: %s" % (n, e))
+    exe = vlib.build_harness(); md = vlib.build_model_driver(cdir, "_C07")
+    sc = script_of("r", d, c, events); text = "\n".join(sc) + "\n"
+    ml = run_model(md, "model", text).get("r", []); sl = run_model(md, "spec", text).get("r", [])
+    rc, so, se = vlib.run_driver(exe, text, timeout=120)
+    il = vlib.split_cases(so).get("r", [])
+    di, dm, ds = real_dumps(il), real_dumps(ml), real_dumps(sl)
+    print("implementation exit code %s; %d dumps (model %d, specification %d)" % (rc, len(di), len(dm), len(ds)))
+    if rc != 0: print(se[-1500:])
+    for k in range(min(len(di), len(dm), len(ds))):
+        a, b, s2 = mask(c, di[k]), mask(c, dm[k]), mask(c, ds[k])
+        if a != b or a != s2:
+            print("first difference after event %d: %s" % (k, events[k - 1] if 1 <= k <= len(events) else None))
+            for l in a:
+                if l not in b or l not in s2: print("  implementation: " + l)
+            for l in b:
+                if l not in a: print("  model:          " + l)
+            for l in s2:
+                if l not in a: print("  specification:  " + l)
+            break
+    reasons = judge(c, events, di, dm, ds) if rc == 0 else ["implementation crashed (rc %s)" % rc]
+    for x in reasons[:5]: print("STILL FAILING: " + str(x))
+    if not reasons: print("the recorded case passes on the current tree")
+    return 1 if reasons else 0
